@@ -200,7 +200,13 @@ def _str_to_set(
     if isinstance(value, str):
         return {value}
     if hasattr(value, "__iter__"):
-        return set(value)
+        try:
+            return set(value)
+        except TypeError:
+            # The collection holds unhashable items (e.g. nested lists). Hand
+            # it to the validators as it is; they reject it with a parse error
+            # that names the file.
+            return cast(set[_T], value)
     return {value}
 
 
